@@ -97,8 +97,8 @@ Theorem C15_hash_mirror_iff_last :
 Proof. exact h_mirror_last. Qed.
 Print Assumptions C15_hash_mirror_iff_last.
 
-(** ... and every statement other than ROLLBACK / ROLLBACK TO SAVEPOINT leaves every user index
-    exact: those two are the only statements that can break C15 in one step *)
+(** ... and every statement other than ROLLBACK TO SAVEPOINT leaves every user index exact: it is
+    the only statement that can break C15 in one step *)
 Theorem C15_user_mirror_step_always :
   forall d s, Inv d -> not_rollback s = true -> db_user_mirror (fst (step d s)).
 Proof. exact user_mirror_step_always. Qed.
@@ -113,11 +113,22 @@ Print Assumptions C15_inv_step_refuted.
 
 Local Open Scope Z_scope.
 
-Theorem C15_refuted_rollback_stale :
-  c15_witness [t_pk0] [SCreateIndex 1 0 false [1%nat]; SInsert 0 [i3 1 10 0]; SBegin; SInsert 0 [i3 2 20 0]]
-              SRollback.
-Proof. exact wit_rollback_stale. Qed.
-Print Assumptions C15_refuted_rollback_stale.
+(** repaired (was rollback-leaves-user-index-stale): the former witness history, ROLLBACK included,
+    is outside every known class, both mirrors hold after it, and the index holds exactly key 10 *)
+Theorem C15_repaired_rollback :
+  c15_repaired [t_pk0] [SCreateIndex 1 0 false [1%nat]; SInsert 0 [i3 1 10 0]; SBegin; SInsert 0 [i3 2 20 0]; SRollback]
+  /\ map (fun t => map ui_data (t_uidx t))
+         (d_tabs (run (db_init [t_pk0]) [SCreateIndex 1 0 false [1%nat]; SInsert 0 [i3 1 10 0]; SBegin;
+                                         SInsert 0 [i3 2 20 0]; SRollback]))
+     = [[[([Some 10], [0%nat])]]].
+Proof. exact rep_rollback. Qed.
+Print Assumptions C15_repaired_rollback.
+
+Theorem C15_repaired_history_mirrors :
+  forall schemas ss, c15_repaired schemas ss ->
+  db_hash_mirror (run (db_init schemas) ss) /\ db_user_mirror (run (db_init schemas) ss).
+Proof. exact c15_repaired_holds. Qed.
+Print Assumptions C15_repaired_history_mirrors.
 
 Theorem C15_refuted_savepoint_undo_stale :
   c15_witness [t_pk0] [SCreateIndex 1 0 false [1%nat]; SBegin; SInsert 0 [i3 1 10 0]; SSavepoint 1;
